@@ -156,6 +156,10 @@ def gen_rule_row(rng, pre):
         ws = ["~"]
     if rng.random() < 0.06:
         ws.insert(0, pre)
+    elif rng.random() < 0.05:
+        # a first word that merely BEGINS with the vendor's negation word (`notify`, `node`, `undoable`, `deleted`):
+        # it is an ordinary command, its negated form is `<neg> <word> ...`
+        ws[0] = pre + rng.choice(["tify", "de", "able", "d", "x"])
     return " ".join(ws)
 
 
@@ -513,6 +517,11 @@ def oracle(case, r):
             out.append(dict(sig="fatal-silent-drop", what="uncovered row %r was not reported in strict mode" % (fu,)))
         elif fat["msg"] != " / ".join(fu):
             out.append(dict(sig="fatal-wrong-row", what="strict mode names %r, first uncovered row is %r" % (fat["msg"], fu)))
+    # (b') rows in negated form, against an independent word matcher (simple ACLs only: literal words, * and a final ~,
+    # no %global / %prio / ignore rules, no rule written in negated form): below a directly covered path, a row
+    # `<neg> <rest>` is passed if some deletable rule of that level matches <rest> and no cant_delete rule does; it is
+    # dropped if no rule of the level matches it as written or through <rest>
+    out.extend(negated_rows_check(case, text, tree, res))
     # (d) merge monotone: everything A or B passes alone, A+B passes
     if len(case["texts"]) >= 2:
         merged = set(paths(res))
@@ -529,6 +538,46 @@ def oracle(case, r):
                 out.append(dict(sig=sig, what="path %r passes generator %d's ACL alone but not the merged ACL" % (lost[0], i)))
                 break
     return out
+
+
+def negated_rows_check(case, text, tree, res):
+    from harness.props import c10
+    neg = dict((v, p) for v, p, _j in VENDORS)[case["vendor"]]
+    if case["vendor"] == "juniper":
+        return []
+    try:
+        rules = c10.simple_rules(c10.raw_rules(text), neg)
+    except Exception:  # noqa
+        return []
+    if rules is None:
+        return []
+    kept = set(paths(res))
+
+    def walk(nodes, level, pre):
+        for row, ch in nodes:
+            ws = row.split(" ")
+            if ws[0] == neg and len(ws) > 1 and row == " ".join(ws):
+                rest = " ".join(ws[1:])
+                direct = [r for r in level if c10.simple_match(r[0], row)]
+                rev = [r for r in level if c10.simple_match(r[0], rest)]
+                if not direct and rev and all(r[1] for r in rev) and pre + (row,) not in kept:
+                    return dict(sig="negated-row-of-a-deletable-rule-dropped",
+                                what="%r below %r: %r is covered by the deletable rule(s) %r, its negated form must pass; "
+                                     "apply_acl drops it (ACL %r)" % (row, pre, rest, [" ".join(r[0]) for r in rev], text))
+                if not direct and not rev and pre + (row,) in kept:
+                    return dict(sig="uncovered-negated-row-passed",
+                                what="%r below %r matches no rule as written or through %r, yet apply_acl passes it (ACL %r)" % (
+                                    row, pre, rest, text))
+                continue
+            ms = [r for r in level if c10.simple_match(r[0], row)]
+            if not ms or pre + (row,) not in kept:
+                continue
+            v = walk(ch, [c for r in ms for c in r[2]], pre + (row,))
+            if v:
+                return v
+        return None
+    v = walk(tree, rules, ())
+    return [v] if v else []
 
 
 def nontrivial(case, r):
